@@ -30,6 +30,13 @@ theorem copy_equal_and_fresh (T : Tables) (hT : schemaCopyOK T = true) (v : Val)
   have h2 := hn a hmem
   omega
 
+/-- `copy_total`: the hypothesis "Copy does not panic" is discharged for every value all of whose nodes are of types
+and shapes `Copy` has a case for and which contains no typed-nil pointer (a condition on the value alone). -/
+theorem copy_total (T : Tables) (hT : schemaCopyOK T = true) (v : Val) (n : Nat)
+    (hv : allHandled T v = true) (hn : ∀ a ∈ v.addrs, a < n) :
+    (copy T v n).1.erase = v.erase ∧ ∀ a ∈ mutAddrs T (copy T v n).1, a ∉ v.addrs :=
+  copy_equal_and_fresh T hT v n (copy_never_panics T v hv) hn
+
 /-! ## B. walk.Generic, for every finite tree and every visitor -/
 
 section walk
@@ -263,6 +270,12 @@ equal up to addresses and shares no address through which a mutation is possible
 theorem c11_copy : C11_copy_full :=
   fun v n hp hn => copy_equal_and_fresh tables schemaCopyOK_inst v n hp hn
 
+/-- … and without any assumption about panics, for every value built from the types `Copy` handles (by
+`copyTotal_inst` these are all node types of the schema and the static types of all deeply copied fields) -/
+theorem c11_copy_total (v : Val) (n : Nat) (hv : allHandled tables v = true) (hn : ∀ a ∈ v.addrs, a < n) :
+    (copy tables v n).1.erase = v.erase ∧ ∀ a ∈ mutAddrs tables (copy tables v n).1, a ∉ v.addrs :=
+  copy_total tables schemaCopyOK_inst v n hv hn
+
 /-! ### The old copy table (before `fix: errors: Copy(s.errors)` + `case []error` in Copy)
 
 FIXED FINDING C11:cypher.Copy:aliasing:<T>.errors — `copy()` of SinglePartQuery, UpdatingClause, Create and
@@ -340,6 +353,22 @@ theorem c11_walk (v : Val) (hg : (treeOf tables tables.structural v).good = true
   obtain ⟨h1, h2, h3⟩ := structural_visits_all tables branchesComplete_inst v hg
   exact ⟨h1, h2, h3, fun hs => semantic_subset_structural tables semanticSubset_inst v hs hg⟩
 
+/-- The walking half of the property at full strength for the current code. -/
+def C11_walk_full : Prop :=
+  ∀ (v : Val), (treeOf tables tables.structural v).good = true →
+    let r := generic (fun _ => Act.continue) (treeOf tables tables.structural v)
+    r.ret = some .ok ∧ (enters r.log).Nodup ∧
+    (∀ l ∈ (treeOf tables (schemaTab tables) v).labels, l ∈ enters r.log) ∧
+    ((treeOf tables tables.semantic v).good = true →
+      ∀ l ∈ enters (generic (fun _ => Act.continue) (treeOf tables tables.semantic v)).log, l ∈ enters r.log)
+
+/-- C11 at full strength for the code as it is: both instance halves; the walker-protocol clauses (nesting, consume
+schedules, immediate stop, nil branches, handler calls, reused visitors, termination) are the generic theorems of
+section B, which hold for every tree and visitor and need no instance. -/
+def C11_full : Prop := C11_copy_full ∧ C11_walk_full
+
+theorem c11 : C11_full := ⟨c11_copy, fun v hg => c11_walk v hg⟩
+
 /-! ## Non-vacuity -/
 
 /-- `MATCH … RETURN`-like value: a RegularQuery → SingleQuery → SinglePartQuery with no errors -/
@@ -348,7 +377,7 @@ def sample : Val :=
     [.node .obj 2 (tyOf "*cypher.SingleQuery") []
       [.node .obj 3 (tyOf "*cypher.SinglePartQuery") [] [.nil, .nil, .nil, .nil], .nil]]
 
-example : copyPanics tables sample = false ∧ (∀ a ∈ sample.addrs, a < 10) := by decide +kernel
+example : copyPanics tables sample = false ∧ allHandled tables sample = true ∧ (∀ a ∈ sample.addrs, a < 10) := by decide +kernel
 example : (treeOf tables tables.structural sample).good = true ∧
     (treeOf tables tables.structural sample).labels.length = 3 := by decide +kernel
 /-- a consuming, then cancelling visitor on a small tree: hypotheses of the index-form theorems are satisfiable -/
